@@ -179,6 +179,22 @@ impl<R: BufRead> ByteReader<R> {
         &mut self.inner
     }
 }
+#[cfg(h264_reader_verif)]
+impl<R: BufRead> ByteReader<R> {
+    /// Verification hook (only with `--cfg h264_reader_verif`): like the public constructors,
+    /// but with a caller-chosen fill window, so that the window-limit path can be exercised
+    /// with windows of a few bytes.
+    pub fn verif_with_max_fill(inner: R, skip: usize, max_fill: usize) -> Self {
+        Self {
+            inner,
+            state: NonZeroUsize::new(skip)
+                .map(ParseState::Skip)
+                .unwrap_or(ParseState::Start),
+            i: 0,
+            max_fill,
+        }
+    }
+}
 impl<R: BufRead> Read for ByteReader<R> {
     fn read(&mut self, buf: &mut [u8]) -> std::io::Result<usize> {
         let chunk = self.fill_buf()?;
